@@ -284,6 +284,331 @@ fn run_json(doc: &Value) -> String {
     format!("J {} {}", enc, nrm)
 }
 
+// ---------------------------------------------------------------- JSON text layer (jprint / jparse)
+
+fn unhex(h: &str) -> Option<String> {
+    dec_str(&format!("h{}", h))
+}
+
+/// (jprint) the text `serde_json::to_string` writes, and the text the two real commands make of
+/// it: `json_parse --collection` then `json_encode --collection` (raw output, not re-parsed)
+fn run_jprint(doc: &Value) -> String {
+    let text = serde_json::to_string(doc).unwrap();
+    let mut ctx = sdk_context();
+    let back = match call(&mut ctx, "json_parse", &[flag("--collection"), val(&text)]) {
+        Ok(None) => "-".to_string(),
+        Ok(Some(v)) => match call(&mut ctx, "json_encode", &[flag("--collection"), val(&v)]) {
+            Ok(Some(out)) => hex_of(&out),
+            _ => "err".into(),
+        },
+        Err(_) => "err-parse".into(),
+    };
+    format!("P {} {}", hex_of(&text), back)
+}
+
+fn has_float(v: &Value) -> bool {
+    match v {
+        Value::Number(n) => !(n.is_u64() || n.is_i64()),
+        Value::Array(l) => l.iter().any(has_float),
+        Value::Object(m) => m.values().any(has_float),
+        _ => false,
+    }
+}
+
+/// the text has something the crate may read as an f64 (the value can lose it again when a
+/// repeated key overwrites the member)
+fn float_token_possible(text: &str) -> bool {
+    text.contains(|c| c == '.' || c == 'e' || c == 'E') || text.contains("-0") || text.as_bytes().windows(19).any(|w| w.iter().all(|b| b.is_ascii_digit()))
+}
+
+/// (jparse) `serde_json::from_str::<Value>`.  When the model declines (`FLOAT`: the text has a
+/// number the crate reads as an f64 — not modelled) the real answer is only required to be an
+/// error or a value that does contain such a number.
+fn run_jparse(text: &str, model_out: &str) -> String {
+    match serde_json::from_str::<Value>(text) {
+        Ok(v) => {
+            if model_out == "FLOAT" && (has_float(&v) || float_token_possible(text)) {
+                "FLOAT".into()
+            } else {
+                format!("V {}", tok_of(&v))
+            }
+        }
+        Err(_) => {
+            if model_out == "FLOAT" {
+                "FLOAT".into()
+            } else {
+                "ERR".into()
+            }
+        }
+    }
+}
+
+/// strings of the text-layer streams: every control character, the two characters that must be
+/// escaped, `/`, DEL, the line separators a JavaScript-minded writer would escape, the borders of
+/// the surrogate gap and of the planes
+fn jt_char(rng: &mut Rng) -> char {
+    match rng.below(8) {
+        0 | 1 => char::from_u32(rng.below(0x20) as u32).unwrap(),
+        2 => *rng.pick(&['"', '\\', '/', '"', '\\']),
+        3 => *rng.pick(&['\u{7f}', '\u{80}', '\u{9f}', '\u{a0}', 'é', '\u{2028}', '\u{2029}', '\u{d7ff}', '\u{e000}', '\u{fffd}', '\u{ffff}', '\u{10000}', '😀', '\u{10ffff}', '中']),
+        _ => *rng.pick(&['a', 'b', 'u', 'n', 't', 'f', 'r', '0', '9', ' ', 'A', 'F', 'x', '{', '[', ',', ':', '$', '%']),
+    }
+}
+fn jt_string(rng: &mut Rng, max: usize) -> String {
+    (0..rng.below(max + 1)).map(|_| jt_char(rng)).collect()
+}
+/// `gen_json` with every leaf turned into a string (half of them from the text-layer pool) and a
+/// third of the keys replaced by pool strings
+fn stringify(rng: &mut Rng, v: &Value, ints: bool) -> Value {
+    match v {
+        Value::Array(l) => Value::Array(l.iter().map(|x| stringify(rng, x, ints)).collect()),
+        Value::Object(m) => {
+            let mut n = Map::new();
+            for (k, x) in m {
+                let key = if rng.chance(1, 3) { jt_string(rng, 4) } else { k.clone() };
+                n.insert(key, stringify(rng, x, ints));
+            }
+            Value::Object(n)
+        }
+        Value::String(s) if rng.chance(1, 2) => Value::String(s.clone()),
+        Value::Number(n) if ints && (n.is_u64() || n.is_i64()) => v.clone(),
+        Value::Null | Value::Bool(_) if ints => v.clone(),
+        _ => Value::String(jt_string(rng, 6)),
+    }
+}
+fn all_string_leaves(v: &Value) -> bool {
+    match v {
+        Value::String(_) => true,
+        Value::Array(l) => l.iter().all(all_string_leaves),
+        Value::Object(m) => m.values().all(all_string_leaves),
+        _ => false,
+    }
+}
+
+#[derive(Clone, Copy)]
+struct Style {
+    ws: bool,
+    reesc: bool,
+    dup: bool,
+}
+fn put_ws(rng: &mut Rng, st: Style, out: &mut String) {
+    if st.ws && rng.chance(1, 3) {
+        for _ in 0..1 + rng.below(3) {
+            out.push(*rng.pick(&[' ', '\n', '\t', '\r']));
+        }
+    }
+}
+fn put_u(rng: &mut Rng, unit: u32, out: &mut String) {
+    let h = if rng.chance(1, 2) { format!("\\u{:04x}", unit) } else { format!("\\u{:04X}", unit) };
+    out.push_str(&h);
+}
+/// a JSON string token for `s`: what must be escaped is, the rest is escaped at random — short
+/// escapes (incl. `\/`) or `\uXXXX` with digits of either case, surrogate pairs above U+FFFF
+fn put_str(rng: &mut Rng, st: Style, s: &str, out: &mut String) {
+    out.push('"');
+    for c in s.chars() {
+        let n = c as u32;
+        let must = c == '"' || c == '\\' || n < 0x20;
+        if !(must || (st.reesc && rng.chance(1, 3))) {
+            out.push(c);
+            continue;
+        }
+        let short = match c {
+            '"' => Some("\\\""),
+            '\\' => Some("\\\\"),
+            '/' => Some("\\/"),
+            '\u{8}' => Some("\\b"),
+            '\u{c}' => Some("\\f"),
+            '\n' => Some("\\n"),
+            '\r' => Some("\\r"),
+            '\t' => Some("\\t"),
+            _ => None,
+        };
+        match short {
+            Some(e) if !(st.reesc && rng.chance(1, 3)) => out.push_str(e),
+            _ => {
+                if n >= 0x10000 {
+                    let m = n - 0x10000;
+                    put_u(rng, 0xd800 + (m >> 10), out);
+                    put_u(rng, 0xdc00 + (m & 0x3ff), out);
+                } else {
+                    put_u(rng, n, out);
+                }
+            }
+        }
+    }
+    out.push('"');
+}
+fn put_value(rng: &mut Rng, st: Style, v: &Value, out: &mut String) {
+    match v {
+        Value::Null => out.push_str("null"),
+        Value::Bool(b) => out.push_str(if *b { "true" } else { "false" }),
+        Value::Number(n) => out.push_str(&n.to_string()),
+        Value::String(s) => put_str(rng, st, s, out),
+        Value::Array(l) => {
+            out.push('[');
+            put_ws(rng, st, out);
+            for (i, x) in l.iter().enumerate() {
+                if i > 0 {
+                    out.push(',');
+                    put_ws(rng, st, out);
+                }
+                put_value(rng, st, x, out);
+                put_ws(rng, st, out);
+            }
+            out.push(']');
+        }
+        Value::Object(m) => {
+            // members in a random order, some keys written twice with different values
+            let mut members: Vec<(String, Value)> = m.iter().map(|(k, x)| (k.clone(), x.clone())).collect();
+            if st.dup {
+                for (k, _) in m.iter() {
+                    if rng.chance(1, 3) {
+                        let other = match rng.below(3) {
+                            0 => Value::String("dup".into()),
+                            1 => Value::Array(vec![Value::Null]),
+                            _ => Value::from(rng.below(100) as u64),
+                        };
+                        members.push((k.clone(), other));
+                    }
+                }
+                for i in (1..members.len()).rev() {
+                    let j = rng.below(i + 1);
+                    members.swap(i, j);
+                }
+            }
+            out.push('{');
+            put_ws(rng, st, out);
+            for (i, (k, x)) in members.iter().enumerate() {
+                if i > 0 {
+                    out.push(',');
+                    put_ws(rng, st, out);
+                }
+                put_str(rng, st, k, out);
+                put_ws(rng, st, out);
+                out.push(':');
+                put_ws(rng, st, out);
+                put_value(rng, st, x, out);
+                put_ws(rng, st, out);
+            }
+            out.push('}');
+        }
+    }
+}
+fn some_ws(rng: &mut Rng) -> String {
+    (0..rng.below(4)).map(|_| *rng.pick(&[' ', '\n', '\t', '\r'])).collect()
+}
+const JP_INSERT: [char; 34] = [
+    '[', ']', '{', '}', ',', ':', '"', '\\', ' ', '\n', '0', '1', '9', '-', '+', '.', 'e', 'E', 'u', 't', 'f', 'n', 'a', 'D', '8', '/', '\u{0}', '\u{1}', '\u{1f}', '\u{7f}', 'é', '😀',
+    '\u{feff}', '\u{a0}',
+];
+fn mutate_text(rng: &mut Rng, t: &str) -> String {
+    let mut c: Vec<char> = t.chars().collect();
+    for _ in 0..1 + rng.below(2) {
+        match rng.below(5) {
+            0 if !c.is_empty() => {
+                let n = rng.below(c.len());
+                c.truncate(n);
+            }
+            1 if !c.is_empty() => {
+                let i = rng.below(c.len());
+                c.remove(i);
+            }
+            2 if !c.is_empty() => {
+                let i = rng.below(c.len());
+                c[i] = *rng.pick(&JP_INSERT);
+            }
+            3 => {
+                let i = rng.below(c.len() + 1);
+                c.insert(i, *rng.pick(&JP_INSERT));
+            }
+            _ => {
+                let tail: String = (0..1 + rng.below(3)).map(|_| *rng.pick(&JP_INSERT)).collect();
+                c.extend(tail.chars());
+            }
+        }
+    }
+    c.into_iter().collect()
+}
+/// hand-made fragments glued into an array or object: numbers of every shape, escapes good and bad
+const JP_FRAGS: [&str; 78] = [
+    "0", "-0", "00", "01", "-01", "1", "-1", "10", "1.5", "1.", ".5", "1e3", "1E+3", "1e", "1e+", "-", "+1", "0x10", "1_000", "18446744073709551615", "18446744073709551616",
+    "-9223372036854775808", "-9223372036854775809", "9223372036854775808", "123456789012345678901234567890", "1e400", "-1e400", "1e-400", "0.0", "-0.0", "0e0", "1a",
+    "null", "nul", "nulll", "Null", "true", "tru", "truee", "false", "fals", "\"\"", "\"a\"", "\"\\u0041\"", "\"\\u00e9\"", "\"\\ud83d\\ude00\"", "\"\\uD83D\\uDE00\"", "\"\\ud800\"",
+    "\"\\udc00\"", "\"\\ud800\\u0041\"", "\"\\ud800\\ud800\"", "\"\\ud800\\n\"", "\"\\ud800x\"", "\"\\udbff\\udfff\"", "\"\\ud7ff\\ue000\"", "\"\\u12\"", "\"\\u12g4\"", "\"\\u 123\"", "\"\\u+123\"",
+    "\"\\x41\"", "\"\\a\"", "\"\\'\"", "\"\\/\\b\\f\\n\\r\\t\\\\\\\"\"", "\"\\U0041\"", "\"a\nb\"", "\"a\tb\"", "\"\u{0}\"", "\"\u{1f}\"", "\"\u{7f}\u{2028}\"", "\"", "\"\\\"", "\"\\",
+    "[]", "{}", "[", "{\"a\"}", "'a'", "",
+];
+fn gen_frag_text(rng: &mut Rng) -> String {
+    let n = 1 + rng.below(3);
+    let items: Vec<String> = (0..n).map(|_| rng.pick_s(&JP_FRAGS).to_string()).collect();
+    match rng.below(4) {
+        0 => items[0].clone(),
+        1 => format!("[{}]", items.join(",")),
+        2 => format!("{{{}}}", items.iter().enumerate().map(|(i, x)| format!("\"k{}\":{}", i % 2, x)).collect::<Vec<_>>().join(",")),
+        _ => format!("{}[{}{}", some_ws(rng), items.join(" , "), rng.pick_s(&["]", ",]", "] ", "]]", "", "]x", "],", "] []"])),
+    }
+}
+fn nest(n: usize, open: &str, inner: &str, close: &str) -> String {
+    format!("{}{}{}", open.repeat(n), inner, close.repeat(n))
+}
+
+fn jprint_case(v: &Value) -> Case {
+    let strdoc = all_string_leaves(v);
+    Case {
+        req: format!("e17jprint {}", tok_of(v)),
+        // the class of C17_jsontext_commands_roundtrip: exact integers only, depth <= 127, no handle text
+        in_domain: !has_float(v) && !has_handle_text(v) && json_depth(v) <= 127,
+        nontrivial: true,
+        tags: vec!["jprint", if strdoc { "jprint-string-leaves" } else { "jprint-mixed-leaves" }],
+    }
+}
+fn jparse_case(text: &str, in_domain: bool, kind: &'static str) -> Case {
+    Case { req: format!("e17jparse {}", enc_str(text)), in_domain, nontrivial: !text.is_empty(), tags: vec!["jparse", kind] }
+}
+fn gen_jparse(rng: &mut Rng) -> Case {
+    let d = 1 + rng.below(4);
+    match rng.below(10) {
+        0 | 1 => {
+            // the class of C17_jsontext_roundtrip_ws: a compact print of a document without f64
+            // leaves (half of them with string leaves only), white space before and after
+            let g = gen_json(rng, d);
+            let ints = rng.chance(1, 2);
+            let v = stringify(rng, &g, ints);
+            let text = format!("{}{}{}", some_ws(rng), serde_json::to_string(&v).unwrap(), some_ws(rng));
+            jparse_case(&text, !has_handle_text(&v), "jparse-printed")
+        }
+        2..=5 => {
+            let g = gen_json(rng, d);
+            let v = stringify(rng, &g, true);
+            let st = Style { ws: rng.chance(2, 3), reesc: rng.chance(2, 3), dup: rng.chance(1, 2) };
+            let mut text = some_ws(rng);
+            put_value(rng, st, &v, &mut text);
+            text.push_str(&some_ws(rng));
+            // a rendering of a well-formed concrete syntax tree: the class of
+            // C17_jsontext_reads_every_text
+            jparse_case(&text, !has_handle_text(&v), "jparse-decorated")
+        }
+        6 => {
+            // numbers of every kind (floats: the model declines)
+            let v = gen_json(rng, d);
+            let st = Style { ws: true, reesc: false, dup: false };
+            let mut text = String::new();
+            put_value(rng, st, &v, &mut text);
+            jparse_case(&text, false, "jparse-numbers")
+        }
+        7 => jparse_case(&gen_frag_text(rng), false, "jparse-fragments"),
+        _ => {
+            let g = gen_json(rng, d);
+            let v = stringify(rng, &g, true);
+            let st = Style { ws: rng.chance(1, 2), reesc: rng.chance(1, 2), dup: false };
+            let mut text = String::new();
+            put_value(rng, st, &v, &mut text);
+            jparse_case(&mutate_text(rng, &text), false, "jparse-mutated")
+        }
+    }
+}
+
 // ---------------------------------------------------------------- properties
 
 fn enc_vars(m: &BTreeMap<String, String>) -> String {
@@ -695,12 +1020,12 @@ impl Prop for C17Prop {
         "C17"
     }
     fn rule(&self) -> &'static str {
-        "nine request kinds through the real SDK commands, every value passed through a variable: (text) texts of 0..12 characters from a pool with NUL, control characters, '$ { } % quotes backslash', 1/2/3/4-byte scalars incl. the boundary code points U+7F/80/7FF/800/D7FF/E000/FFFF/10000/10FFFF: string_to_bytes -> base64_encode -> base64_decode -> bytes_to_string, all intermediate byte arrays read from the handle store; (bytes) arbitrary byte strings incl. invalid UTF-8: base64 there and back + bytes_to_string; (b64d) valid encodings with one mutation (drop/replace/insert/pad) decoded; (hex) decimal texts incl. 0, 2^64-1, 2^64, signs, blanks: hex_encode -> hex_decode; (hexd) arbitrary spellings with repeated/odd 0x prefixes decoded; (json) serde_json::Value documents of depth <= 5 and width <= 6 with string/number/bool/null leaves and keys containing dots, blanks, brackets, quotes, NUL and non-ASCII: json_parse --collection -> json_encode --collection, compared with the normalisation computed in Rust; (props) maps of <= 5 entries with keys/values over a pool with '= : # ! backslash blank tab newline' and non-ASCII: map_to_properties -> map_load_properties into a fresh map, compared with the Lean model of the java-properties writer/reader run on the entries in the order of the request (the real command writes in the iteration order of a fresh HashMap: the real round trip is repeated, at most 200 times, until its outcome is the model's; the last outcome is reported and the round-trip relation is evaluated on it); (write) the text map_to_properties returns for maps of <= 3 entries, one third of them with a key or value of 240..1002 characters ending in an unmappable character at the writer's buffer boundaries (256, 768), compared with the model's text (same repetition); (load) properties texts of <= 10 fragments (keys, '=' ':' blank tab form-feed separators, '#'/'!' comments, every escape incl. malformed \\u forms, LF/CR/CRLF, continuation lines, blank lines, non-ASCII, NBSP, BOM) loaded by the real map_load_properties through a variable, compared with the model. Fixed cases: 64 hand-written properties texts, writer texts around the 256-byte boundary, all texts of <= 2 pool characters, all byte strings of length <= 1 and all continuation patterns of 2 bytes from a boundary set, corner integers, hand-written JSON documents and maps. Non-trivial = non-empty input (json: at least one array/object); distinct = distinct request."
+        "eleven request kinds through the real SDK commands, every value passed through a variable: (text) texts of 0..12 characters from a pool with NUL, control characters, '$ { } % quotes backslash', 1/2/3/4-byte scalars incl. the boundary code points U+7F/80/7FF/800/D7FF/E000/FFFF/10000/10FFFF: string_to_bytes -> base64_encode -> base64_decode -> bytes_to_string, all intermediate byte arrays read from the handle store; (bytes) arbitrary byte strings incl. invalid UTF-8: base64 there and back + bytes_to_string; (b64d) valid encodings with one mutation (drop/replace/insert/pad) decoded; (hex) decimal texts incl. 0, 2^64-1, 2^64, signs, blanks: hex_encode -> hex_decode; (hexd) arbitrary spellings with repeated/odd 0x prefixes decoded; (json) serde_json::Value documents of depth <= 5 and width <= 6 with string/number/bool/null leaves and keys containing dots, blanks, brackets, quotes, NUL and non-ASCII: json_parse --collection -> json_encode --collection, compared with the normalisation computed in Rust; (props) maps of <= 5 entries with keys/values over a pool with '= : # ! backslash blank tab newline' and non-ASCII: map_to_properties -> map_load_properties into a fresh map, compared with the Lean model of the java-properties writer/reader run on the entries in the order of the request (the real command writes in the iteration order of a fresh HashMap: the real round trip is repeated, at most 200 times, until its outcome is the model's; the last outcome is reported and the round-trip relation is evaluated on it); (write) the text map_to_properties returns for maps of <= 3 entries, one third of them with a key or value of 240..1002 characters ending in an unmappable character at the writer's buffer boundaries (256, 768), compared with the model's text (same repetition); (load) properties texts of <= 10 fragments (keys, '=' ':' blank tab form-feed separators, '#'/'!' comments, every escape incl. malformed \\u forms, LF/CR/CRLF, continuation lines, blank lines, non-ASCII, NBSP, BOM) loaded by the real map_load_properties through a variable, compared with the model. (jprint) the JSON TEXT layer, writer: documents of the json generator with every leaf a string (one in four keeps null/bool/integer leaves), half of the strings and a third of the keys from a pool with every control character, quote, backslash, '/', DEL, U+2028/2029, the borders of the surrogate gap and non-BMP characters: serde_json::to_string must equal the model's compact text byte for byte, and the raw text returned by the real json_parse --collection + json_encode --collection must equal the model's text of the normalised document; (jparse) the reader: serde_json::from_str::<Value> against the model on compact prints with outer white space (the in-domain class of the round-trip theorem), on renderings of concrete syntax trees (in domain: C17_jsontext_reads_every_text) with random white space between all tokens, random \\uXXXX / short re-escaping of string characters (hex digits of either case, surrogate pairs), members in random order with repeated keys, integer/null/bool leaves, on number texts of every shape (the model answers FLOAT for what the crate reads as f64; then only 'error or a value with an f64' is required), on glued hand-made fragments (bad escapes, lone surrogates, raw control characters, leading zeros, literals cut short) and on valid texts with 1-2 mutations (truncate/delete/replace/insert/append). Fixed cases: 64 hand-written properties texts, writer texts around the 256-byte boundary, all texts of <= 2 pool characters, all byte strings of length <= 1 and all continuation patterns of 2 bytes from a boundary set, corner integers, hand-written JSON documents and maps, every single character below U+0100 as a JSON string and inside a key, nesting depths 126..130 and 200 of arrays/objects through both the reader and the two commands, trailing commas, trailing garbage, repeated keys. Non-trivial = non-empty input (json: at least one array/object); distinct = distinct request."
     }
     fn budget(&self, tier: Tier) -> usize {
         match tier {
-            Tier::Quick => 24_000,
-            Tier::Thorough => 2_400_000,
+            Tier::Quick => 28_000,
+            Tier::Thorough => 2_800_000,
         }
     }
     fn fixed_cases(&self, _tier: Tier) -> Vec<Case> {
@@ -824,10 +1149,67 @@ impl Prop for C17Prop {
             let m: BTreeMap<String, String> = [("k".to_string(), format!("{}中x", "a".repeat(n)))].into_iter().collect();
             out.push(write_case(&m, true));
         }
+        // JSON text layer: the writer
+        for t in [
+            "\"\"", "\"a\"", "[]", "{}", "[\"\"]", "{\"\":\"\"}", "[\"a\",\"b\"]", "{\"a\":\"1\",\"b\":[\"x\",{\"c\":\"\"}]}", "[[],{},[[]],[{}]]", "null", "true", "[null,false,0,-1,18446744073709551615,-9223372036854775808]",
+            "{\"b\":\"1\",\"a\":\"2\",\"aa\":\"3\",\"B\":\"4\",\"\":\"5\",\"é\":\"6\",\"\\uffff\":\"7\",\"😀\":\"8\",\"a\\u0000\":\"9\"}",
+        ] {
+            let v: Value = serde_json::from_str(t).unwrap();
+            out.push(jprint_case(&v));
+        }
+        // every character below U+0100 and the borders above it, alone and between two letters
+        let mut singles: Vec<char> = (0u32..0x100).filter_map(char::from_u32).collect();
+        singles.extend(['\u{2028}', '\u{2029}', '\u{d7ff}', '\u{e000}', '\u{fffd}', '\u{fffe}', '\u{ffff}', '\u{10000}', '😀', '\u{10ffff}']);
+        for c in &singles {
+            out.push(jprint_case(&Value::String(c.to_string())));
+            let mut m = Map::new();
+            m.insert(format!("k{}", c), Value::Array(vec![Value::String(format!("a{}b", c))]));
+            out.push(jprint_case(&Value::Object(m)));
+        }
+        out.push(jprint_case(&Value::String(singles.iter().collect())));
+        // the recursion limit seen through the two commands (127 containers pass, 128 do not)
+        for n in [1usize, 2, 126, 127, 128, 129] {
+            let mut v = Value::String("x".into());
+            for i in 0..n {
+                v = if i % 2 == 0 { Value::Array(vec![v]) } else { [("k".to_string(), v)].into_iter().collect::<Map<String, Value>>().into() };
+            }
+            out.push(jprint_case(&v));
+        }
+        // JSON text layer: the reader
+        for t in JP_FRAGS {
+            out.push(jparse_case(t, false, "jparse-fixed"));
+            out.push(jparse_case(&format!(" [ {} ] ", t), false, "jparse-fixed"));
+            out.push(jparse_case(&format!("{{\"k\":{}}}", t), false, "jparse-fixed"));
+            out.push(jparse_case(&format!("[1,{}", t), false, "jparse-fixed"));
+        }
+        for t in [
+            " ", "\n", "[1,]", "[,1]", "[1,,2]", "[1 2]", "{\"a\":1,}", "{,\"a\":1}", "{\"a\" 1}", "{\"a\":}", "{a:1}", "{1:1}", "{\"a\":1 \"b\":2}", "{\"a\":1,\"a\":2}", "{\"b\":1,\"a\":2,\"b\":3,\"a\":[4]}",
+            "{\"a\":1,\"a\":null}", "{\"\\u0061\":1,\"a\":2}", "[1]x", "[1] x", "[1]\u{0}", "[1]\u{a0}", "\u{feff}[1]", "[1]\u{feff}", "\u{b}[1]", "\u{c}[1]", "[1]\u{2028}", "1 2", "\"a\" \"b\"", "nullnull", "[] []", "{}{}",
+            "\t\r\n [ \t\r\n ] \t\r\n", " { \"a\" : [ ] , \"b\" : { } } ", "[\"\\u0000\\u001f\\u007f\\u2028\\uffff\"]", "\"\\ud834\\udd1e\"", "\"\\uD834\\uDD1E\"", "\"\\ud834\\udd1\"", "\"\\ud834\\u\"", "\"\\ud834\\\"",
+            "\"\\ud834\\", "\"\\ud834", "\"\\ud83", "\"\\u", "\"\\ud834\\udd1e", "\"é\\u00e9\\u00E9\"", "\"\u{1}\"", "\"\\u001\u{e9}\"",
+        ] {
+            out.push(jparse_case(t, false, "jparse-fixed"));
+        }
+        for n in [1usize, 2, 3, 64, 126, 127, 128, 129, 130, 200] {
+            out.push(jparse_case(&nest(n, "[", "", "]"), false, "jparse-depth"));
+            out.push(jparse_case(&nest(n, "[", "\"x\"", "]"), n <= 127, "jparse-depth"));
+            out.push(jparse_case(&nest(n, "{\"a\":", "\"x\"", "}"), n <= 127, "jparse-depth"));
+            out.push(jparse_case(&nest(n, " [ ", "1", " ] "), false, "jparse-depth"));
+            out.push(jparse_case(&nest(n, "[{\"k\":", "[]", "}]"), false, "jparse-depth"));
+            out.push(jparse_case(&"[".repeat(n), false, "jparse-depth"));
+            out.push(jparse_case(&format!("{}1.5{}", "[".repeat(n), "]".repeat(n)), false, "jparse-depth"));
+        }
         out
     }
     fn generate(&self, rng: &mut Rng, _tier: Tier) -> Case {
-        match rng.below(24) {
+        match rng.below(28) {
+            24 | 25 => {
+                let d = 1 + rng.below(5);
+                let g = gen_json(rng, d);
+                let ints = rng.chance(1, 4);
+                jprint_case(&stringify(rng, &g, ints))
+            }
+            26 | 27 => gen_jparse(rng),
             0..=4 => {
                 // mostly short; one in six long (block / buffer boundaries of the encoders)
                 let max = match rng.below(18) { 0 => 300, 1 => 1100, 2 => 70, _ => 12 };
@@ -900,6 +1282,8 @@ impl Prop for C17Prop {
             "e17hex" => run_hex(&dec_str(t[1]).unwrap()),
             "e17hexd" => run_hexd(&dec_str(t[1]).unwrap()),
             "e17json" => run_json(&value_of_tok(t[1]).unwrap()),
+            "e17jprint" => run_jprint(&value_of_tok(t[1]).unwrap()),
+            "e17jparse" => run_jparse(&dec_str(t[1]).unwrap(), model_out),
             // legacy op (corpus lines): the model side is only the property's reading, one run
             "e17props" => run_props(&dec_vars(t[1]).unwrap(), None),
             "m17props" => run_props(&dec_vars(t[1]).unwrap(), Some(model_out)),
@@ -941,6 +1325,22 @@ impl Prop for C17Prop {
                     Some(o.len() == 3 && o[0] == "J" && o[1] == o[2])
                 }
             }
+            "e17jprint" => {
+                // the property on the level of texts, on the real commands alone: the text
+                // json_encode returns is the compact text of the normalised document and parses
+                // back to it
+                let v = value_of_tok(t[1])?;
+                if has_handle_text(&v) || json_depth(&v) > 127 || has_float(&v) {
+                    return None;
+                }
+                Some(o.len() == 3 && o[0] == "P" && match normalise(&v) {
+                    None => o[2] == "-",
+                    Some(n) => match unhex(o[2]) {
+                        Some(text) => text == serde_json::to_string(&n).unwrap() && serde_json::from_str::<Value>(&text).ok() == Some(n),
+                        None => false,
+                    },
+                })
+            }
             "e17props" | "m17props" => Some(imp == format!("ok {}", t[1])),
             _ => None,
         }
@@ -963,7 +1363,7 @@ impl Prop for C17Prop {
         let t: Vec<&str> = req.split(' ').collect();
         let mut out = vec![];
         match t[0] {
-            "e17text" | "e17b64d" | "e17hex" | "e17hexd" | "m17load" => {
+            "e17text" | "e17b64d" | "e17hex" | "e17hexd" | "m17load" | "e17jparse" => {
                 if let Some(s) = dec_str(t[1]) {
                     let c: Vec<char> = s.chars().collect();
                     for i in 0..c.len() {
@@ -982,7 +1382,7 @@ impl Prop for C17Prop {
                     }
                 }
             }
-            "e17json" => {
+            "e17json" | "e17jprint" => {
                 if let Some(v) = value_of_tok(t[1]) {
                     let mut cands = vec![];
                     match &v {
@@ -1005,7 +1405,7 @@ impl Prop for C17Prop {
                         _ => {}
                     }
                     for c in cands {
-                        out.push(format!("e17json {}", tok_of(&c)));
+                        out.push(format!("{} {}", t[0], tok_of(&c)));
                     }
                 }
             }
@@ -1048,7 +1448,7 @@ impl Prop for C17Prop {
     }
     fn outcome_kind(&self, imp: &str) -> String {
         let first = imp.split(' ').next().unwrap_or("");
-        if first == "J" || first == "ok" || first.starts_with("err") || first == "PANIC" {
+        if first == "J" || first == "P" || first == "V" || first == "ERR" || first == "FLOAT" || first == "ok" || first.starts_with("err") || first == "PANIC" {
             first.to_string()
         } else if imp.contains("err") {
             "partial-err".to_string()
@@ -1061,6 +1461,8 @@ impl Prop for C17Prop {
         match t[0] {
             "e17text" | "e17b64d" | "e17hex" | "e17hexd" => format!("{} {:?}", &t[0][3..], dec_str(t[1]).unwrap_or_default()),
             "e17bytes" => format!("bytes {:?}", dec_bytes(t[1]).unwrap_or_default()),
+            "e17jprint" => format!("jprint {}", value_of_tok(t[1]).map(|v| v.to_string()).unwrap_or_default()),
+            "e17jparse" => format!("jparse {:?}", dec_str(t[1]).unwrap_or_default()),
             "e17json" => format!("json {}", value_of_tok(t[1]).map(|v| v.to_string()).unwrap_or_default()),
             "e17props" | "m17props" => format!("props {:?}", dec_vars(t[1]).unwrap_or_default()),
             "m17write" => format!("write {:?}", dec_vars(t[1]).unwrap_or_default()),
